@@ -42,6 +42,8 @@ structure Format (V : Type) where
   /-- Spec, independent of the model's decoder: a value the implementation ACCEPTED from the wire that
   the property says must be rejected → class name -/
   invalid : V → Option String
+  /-- Spec on the accepted BYTES (for what the decoded value does not show, e.g. magic and version) -/
+  invalidBytes : Bytes → Option String := fun _ => none
 
 def showErr (e : Err) : String := if e.isEof then "err/eof" else "err/inv"
 
@@ -96,7 +98,7 @@ def handleDec {V} (F : Format V) (hex res : String) : String :=
   | some b =>
     if res == "panic" then s!"specfail panic-{F.name} hex={hex.take 80}" else
     -- Spec: accepted values must be valid ones
-    match acceptedInvalid F res with
+    match (acceptedInvalid F res).orElse (fun _ => if res.startsWith "ok/" then F.invalidBytes b else none) with
     | some cls => s!"specfail accepted-invalid-{cls} hex={hex.take 80} impl={res.take 80}"
     | none =>
       let mres := showRes F b (F.dec b)
@@ -183,7 +185,10 @@ def msgInvalid : Msg → Option String
 
 def fmtTcpcl : Format Msg :=
   { name := "tcpcl", parse := parseMsg, shw := showMsg, enc := enc, encOk := fun _ => true,
-    dec := readMessage, canon := canonicalB, invalid := msgInvalid }
+    dec := readMessage, canon := canonicalB, invalid := msgInvalid,
+    -- a stream starting with 'd' is a contact header: it must be exactly "dtn!" + version 4
+    invalidBytes := fun b =>
+      if b.head? == some 0x64 && b.take 5 != [0x64, 0x74, 0x6E, 0x21, 0x04] then some "contact-magic-or-version" else none }
 end
 
 /-! ### BBC fragment header: desc = tid:seq:SEF:payloadhex (arguments of NewFragment; S,E,F ∈ {0,1}) -/
@@ -273,7 +278,11 @@ def handleEidUri : List String → String
           if !validB e then s!"specfail accepted-invalid-{(eidInvalid e).getD "eid"} hex={hex.take 80}"
           else if printUri e != p then s!"diff eiduri-print model={toHex (printUri e)} impl={printed}"
           else if p != s then
-            let cls := match e with | .ipn _ _ => "ipn-leading-zero" | _ => "other"
+            -- leading zeros are what the grammar `\\d+` (the code before the D30 repair) additionally accepts
+            let cls := match e, parseUri false s with
+              | .ipn _ _, .ok _ => "ipn-leading-zero"
+              | .ipn _ _, _ => "ipn-other"
+              | _, _ => "dtn"
             s!"specfail eid-text-not-unique-{cls} input={hex.take 80} prints-as={printed.take 80}"
           else
             (match m with
